@@ -331,7 +331,29 @@ func concStressChild(args []string) int {
 			defer wg.Done()
 			rng := rand.New(rand.NewSource(seed*1000 + int64(g)))
 			for k := 0; k < nops; k++ {
-				switch rng.Intn(8) {
+				switch rng.Intn(9) {
+				case 8: // register a codec and a schema for a type only this goroutine knows; both are in effect once the calls return
+					mine := reflect.StructOf([]reflect.StructField{{Name: fmt.Sprintf("G%dK%d", g, k), Type: reflect.TypeOf(int64(0))}})
+					var built atomic.Int32
+					avro.Register(mine, func(s avro.Schema, t reflect.Type, omit bool) (avro.Codec, error) {
+						built.Add(1)
+						return avro.Int64Codec{}, nil
+					})
+					avro.RegisterSchema(mine, avro.Schema{Type: "long"})
+					holder := reflect.StructOf([]reflect.StructField{{Name: "F", Type: mine, Tag: `json:"f"`}, {Name: "L", Type: reflect.SliceOf(mine), Tag: `json:"l"`}})
+					zero := reflect.New(holder).Elem().Interface()
+					schemaOK, codecOK := false, false
+					if sch, err := avro.SchemaForType(zero); err == nil {
+						schemaOK = sch.Object != nil && len(sch.Object.Fields) == 2 && sch.Object.Fields[0].Type.Type == "long"
+						if _, err := sch.Codec(zero); err == nil {
+							codecOK = built.Load() >= 2
+						}
+					}
+					out := "ok"
+					if !schemaOK || !codecOK {
+						out = fmt.Sprintf("schema=%v codec=%v builds=%d", schemaOK, codecOK, built.Load())
+					}
+					results[g] = append(results[g], stressRecord{Op: "conc_reg", G: g, Seq: int64(k), Out: out})
 				case 7: // a tight loop of small string decodes, each with a bank of its own (drawn from and returned to the pool)
 					mine := []string{fmt.Sprintf("goroutine %d string A, long enough to matter", g), fmt.Sprintf("g%d-B", g), fmt.Sprintf("goroutine %d string C %s", g, strings.Repeat("c", 40))}
 					seen := map[[2]string]int{}
@@ -761,7 +783,7 @@ func driveC12(c *driverCtx) error {
 					e["schema"] = schemaNodes[int(idx)]
 				}
 				c.rec.Emit(key, e)
-			case "conc_time", "conc_str":
+			case "conc_time", "conc_str", "conc_reg":
 				c.rec.Emit(key, e)
 			case "conc_file":
 				e["inputs"] = fileInputs
